@@ -573,9 +573,85 @@ pub fn run_directed(ctx: &mut Ctx) {
     });
 }
 
+/// replayable wrapper for failures found by the pool enumeration
+pub struct C05Pools;
+impl Check for C05Pools {
+    type Case = CaseExpr;
+    fn name(&self) -> &'static str {
+        "C05.pools"
+    }
+    fn cases(&self, _t: Tier) -> u64 {
+        0
+    }
+    fn strategy(&self, t: Tier) -> BoxedStrategy<CaseExpr> {
+        C05Expr.strategy(t)
+    }
+    fn check(&self, c: &CaseExpr) -> CaseResult {
+        C05Expr.check(c)
+    }
+}
+
+/// every signature called with literal arguments from the wide pools of C04.pools plus
+/// extreme numbers in every numeric position (crash oracle only)
+pub fn run_pools(ctx: &mut Ctx) {
+    use crate::pools::*;
+    let cap: u64 = ((ctx.tier.pick(1200u64, 40_000u64) as f64) * ctx.scale).ceil() as u64;
+    let mut plan: Vec<(usize, Vec<Slot>, u64, u64)> = Vec::new();
+    for (si, s) in SIGS.iter().enumerate() {
+        if IMPURE.contains(&s.f) {
+            continue;
+        }
+        if let Some(sl) = slots_with(si, true) {
+            let prod: u64 = sl.iter().map(|x| slot_len(x) as u64).fold(1u64, |a, b| a.saturating_mul(b));
+            let n = prod.min(cap);
+            plan.push((si, sl, prod, n));
+        }
+    }
+    let total: u64 = plan.iter().map(|p| p.3).sum();
+    let space = format!("{} signatures called with literal arguments from the wide pools (harness/src/pools.rs) plus {} extreme numbers in every numeric position: whole product below {} tuples per signature, seeded sample above", plan.len(), WILD_EXTRA.len(), cap);
+    let seed = ctx.seed;
+    let mix = |mut x: u64| {
+        x = x.wrapping_add(0x9e3779b97f4a7c15);
+        x = (x ^ (x >> 30)).wrapping_mul(0xbf58476d1ce4e5b9);
+        x = (x ^ (x >> 27)).wrapping_mul(0x94d049bb133111eb);
+        x ^ (x >> 31)
+    };
+    let record = r#"{"n":1.5,"m":2,"i":1,"j":0,"s":"a","t":"ab","b":true,"c":false,"z":null,"an":[1,2],"as":["a"],"ab":[true],"ao":[{"k":"a","v":1,"g":"x"}],"aa":[[1]],"o":{"a":1},"os":{"a":"x"},"e":[],"eo":{}}"#;
+    run_enum(ctx, "C05.pools", total, &space, |idx| {
+        let mut rest = idx;
+        let mut pi = 0;
+        while rest >= plan[pi].3 {
+            rest -= plan[pi].3;
+            pi += 1;
+        }
+        let (si, sl, prod, _) = &plan[pi];
+        let mut picks = Vec::with_capacity(sl.len());
+        if *prod <= cap {
+            let mut r = rest;
+            for s in sl.iter() {
+                let l = slot_len(s) as u64;
+                picks.push((r % l) as usize);
+                r /= l;
+            }
+        } else {
+            let mut h = mix(seed ^ mix(*si as u64 ^ (rest << 16) ^ 0x5005));
+            for s in sl.iter() {
+                h = mix(h);
+                picks.push((h % slot_len(s) as u64) as usize);
+            }
+        }
+        let c = CaseExpr { e: build(*si, sl, &picks), position: (mix(idx) % 7) as u8, inputs: vec![record.to_string()] };
+        let shard = (idx % SHARDS as u64) as usize;
+        slot_set(shard, "C05", "C05.expressions", &serde_json::to_string(&c).unwrap());
+        let r = C05Expr.check(&c);
+        slot_idle(shard);
+        (Box::new(move || vjson(&c)), r)
+    });
+}
+
 pub fn run_all(ctx: &mut Ctx) {
     install_abort_reporter_for(&ctx.root.clone(), true);
-    ctx.rule = "(bytes_exhaustive) every byte string over the 24-byte alphabet { } [ ] , : \" \\ - + . 0 1 e E t r u n l SP LF 0xC3 0xA9 up to length 5 (quick) / 6 (thorough) under --on-error=ignore and up to length 4 / 5 under panic, stderr, stdout. (bytes) generated streams, alphabet soup, raw bytes and depth-64 values, mutated 0..5 times (truncate, bit flip, splice of a token fragment incl. broken UTF-8 and broken escapes, delete, duplicate, overwrite), <= 4 KiB, x 4 policies x 8 pipelines. (expressions) every signature of every function as root (stratified), depth <= 4, ill-typed arguments with probability 6/16, full Unicode strings incl. astral, boundary and huge numbers (allocation-size arguments bounded as the property says), in 7 option positions, on 1..3 generated inputs. (directed) see the space description. Oracle: the run returns (Ok or Err), never a panic (catch_unwind), never an abort (SIGABRT reporter), never a hang (60 s watchdog + isolated re-run). non-trivial (bytes) = the input is not a clean stream of values and has >= 2 bytes; every expression case counts".into();
+    ctx.rule = "(bytes_exhaustive) every byte string over the 24-byte alphabet { } [ ] , : \" \\ - + . 0 1 e E t r u n l SP LF 0xC3 0xA9 up to length 5 (quick) / 6 (thorough) under --on-error=ignore and up to length 4 / 5 under panic, stderr, stdout. (bytes) generated streams, alphabet soup, raw bytes and depth-64 values, mutated 0..5 times (truncate, bit flip, splice of a token fragment incl. broken UTF-8 and broken escapes, delete, duplicate, overwrite), <= 4 KiB, x 4 policies x 8 pipelines. (expressions) every signature of every function as root (stratified), depth <= 4, ill-typed arguments with probability 6/16, full Unicode strings incl. astral, boundary and huge numbers (allocation-size arguments bounded as the property says), in 7 option positions, on 1..3 generated inputs. (pools) every signature with literal arguments from the wide pools of C04.pools plus extreme numbers (2^64-1, -2^63, +-1e18, +-1e308, 2^31, 2^32-1) in every numeric position that does not decide an allocation. (directed) see the space description. Oracle: the run returns (Ok or Err), never a panic (catch_unwind), never an abort (SIGABRT reporter), never a hang (60 s watchdog + isolated re-run). non-trivial (bytes) = the input is not a clean stream of values and has >= 2 bytes; every expression case counts".into();
     ctx.assumptions = vec!["release profile (no overflow checks), as users run it".into(), "sizes that decide an allocation (range N, sub length) are kept <= 10^4: resource exhaustion is outside the property".into()];
     let (l_ignore, l_other) = ctx.tier.pick((5u32, 4u32), (6u32, 5u32));
     run_exhaustive(ctx, 0, l_ignore);
@@ -584,11 +660,12 @@ pub fn run_all(ctx: &mut Ctx) {
     }
     C05Bytes.run(ctx);
     C05Expr.run(ctx);
+    run_pools(ctx);
     run_directed(ctx);
 }
 
 pub fn checks() -> Vec<Box<dyn DynCheck>> {
-    vec![Box::new(C05Bytes), Box::new(C05Expr), Box::new(C05Directed)]
+    vec![Box::new(C05Bytes), Box::new(C05Expr), Box::new(C05Directed), Box::new(C05Pools)]
 }
 
 #[allow(dead_code)]
